@@ -38,6 +38,10 @@ def check(ctx):
     # `... and recursively for its ancestors` is a UNION over all ancestors: the flattening must extend, never replace or keep-first
     with ctx.only(lambda k: k.startswith("flatten/") or k.startswith("key-multiplicity/")):
         c08.flatten(ctx)
+    # "recursively for its ancestors" follows every way one type mentions another (fields, elements, type parameters, ..): the traversal that
+    # computes what a recursive registration reaches
+    with ctx.only(lambda k: k.startswith("reach/")):
+        c08.reachability(ctx)
     # substitutes: operation + parse-before-mutate
     PARSE = "TypeSubstitutes::parse_path_substitution(P1,P2.0)?"
     expect_fn(ctx, "C16.2", "substitutes/insert", "TypeSubstitutes::insert", "{HashMap::insert(P0.substitutes,%s.0,%s.1);Ok(())}" % (PARSE, PARSE),
